@@ -12,8 +12,9 @@ INVS = ['FramesMatchStack', 'TopFrameVarsAreLocals', 'FrameTypeDecides', 'OneRes
         'EveryTracepointDelivers']
 
 
-def mc_cfg(shared=False, d=2, k=2, invs=None, cls=('none', 'C')):
-    return dict(constants=dict(MaxDepth=d, MaxActions=k, SharedTable=shared, ClsKinds=set(cls)),
+def mc_cfg(shared=False, d=2, k=2, invs=None, cls=('none', 'C'), lives=1, memo=False):
+    return dict(constants=dict(MaxDepth=d, MaxActions=k, SharedTable=shared, ClsKinds=set(cls), MaxLives=lives,
+                               AppFlagMemoised=memo),
                 invariants=invs or INVS, deadlock=False)
 
 
@@ -46,20 +47,29 @@ def replay_behaviours(c, behs, wd, tagbase, independence_only=False):
             if ft == 'all_frame':
                 return True
             return idx == 0
-        out = {}
-
-        def body():
-            out['r'] = D.run_case(wd, stack, tps, expire, '%s%d' % (tagbase, n))
-        th = threading.Thread(target=body)
-        th.start()
-        th.join(120)
-        if 'r' not in out:
-            raise tlc.MachineryError('snapshot case did not finish')
-        reference, expected, snaps, problems, app_dir = out['r']
-        problems = list(problems)
+        lives = int(final.get('life', 1))
+        problems = []
         eff = expire if expire < len(stack) else 10 ** 6      # run_case installs no time limit in that case
-        if not problems:
-            problems = D.compare(stack, tps, eff, reference, expected, snaps, app_dir, should_collect)
+        for lf in range(1, lives + 1):
+            # life 2 = a second configuration (the other root) in the same process, on the same files
+            flipped = lf == 2
+            out = {}
+
+            def body(flipped=flipped):
+                out['r'] = D.run_case(wd, stack, tps, expire, '%s%d' % (tagbase, n), flipped=flipped)
+            th = threading.Thread(target=body)
+            th.start()
+            th.join(120)
+            if 'r' not in out:
+                raise tlc.MachineryError('snapshot case did not finish')
+            reference, expected, snaps, probs, app_dir = out['r']
+            probs = list(probs)
+            seen = [dict(f, app=(f['app'] != flipped)) for f in stack]
+            if not probs:
+                probs = D.compare(seen, tps, eff, reference, expected, snaps, app_dir, should_collect)
+            if flipped and bool(final.get('flipped')) is not True:
+                raise tlc.MachineryError('harness reading of the second configuration disagrees with the spec state')
+            problems += [('second configuration (other root, same files): ' if flipped else '') + p_ for p_ in probs]
         # the spec state says which frames carry variables: cross-check the Python restatement against it
         for s in spec_snaps:
             t = tps[s['tp'] - 1]
@@ -300,6 +310,19 @@ def run(c):
     sim = tlc.simulate('Snapshot', mc_cfg(d=2, k=1, cls=('E', 'H')), num=16 if quick else 2000, depth=12, seed=c.seed + 2)
     c.transitions += sim.generated
     replay_behaviours(c, sim.behaviours, wd, 'e')
+    # a second configuration in the same process sees the same files under the other application root
+    c.mc_expect_violation('Snapshot', mc_cfg(d=2, k=1, lives=2, memo=True, invs=['FramesMatchStack']),
+                          'deviation AppFlagMemoised', what='FramesMatchStack')
+    r = c.mc('Snapshot', mc_cfg(d=2, k=1, lives=2, cls=('none',)), label='two configurations, depth<=2', dump=True,
+             coverage=False)
+    finals = [st for _, st in sorted(r.graph.states.items())
+              if st['life'] == 2 and st['phase'] == 'run' and len(to_json(st['snaps'])) == len(to_json(st['tps']))
+              and st['expire'] >= len(to_json(st['stack']))]
+    if not finals:
+        raise tlc.MachineryError('no finished two-configuration state in the Snapshot graph')
+    mixed = [st for st in finals if len({f['app'] for f in to_json(st['stack'])}) == 2]
+    pick = rng.sample(mixed, min(len(mixed), 14 if quick else 600)) + rng.sample(finals, min(len(finals), 6 if quick else 400))
+    replay_behaviours(c, [[(None, None, st)] for st in pick], wd, 'l')
     values_leg(c, rng, wd, 300 if quick else 40000)
     scalar_watch_leg(c, wd)
     typed_objects_leg(c, wd)
